@@ -1,0 +1,16 @@
+//go:build verif
+
+package evaluator
+
+import "github.com/woodsbury/jmespath/internal/parser"
+
+// StepHook, when set, is called at the entry of every evaluate step. It is
+// only compiled in with the verif build tag and is used by the verification
+// harness as a scheduler gate and step counter.
+var StepHook func(node parser.Node)
+
+func step(node parser.Node) {
+	if h := StepHook; h != nil {
+		h(node)
+	}
+}
